@@ -480,6 +480,11 @@ func ruleGlobals(c *engine.Context) *report.Rule {
 				"package-level variable %s is neither a sync primitive nor the parser that is reset on every exit of Parse, and it is written outside package initialisation by: %s — state survives from one call to the next%s", g.Name(), strings.Join(writers, "; "),
 				map[bool]string{true: "; it is also accessed without the parser lock by " + accessOutside, false: " (all accesses happen under the parser lock)"}[accessOutside != ""])
 			props := []string{"C19"}
+			// state consulted while turning captured text into member names / literals also breaks
+			// the equivalence of spellings and the addressability of members
+			if textHelperAccess(c, g, owned, go_) {
+				props = append(props, "C16", "C18")
+			}
 			if accessEval {
 				props = append(props, "C05")
 			}
@@ -606,6 +611,52 @@ func collectsKeys(fn *ssa.Function) bool {
 					return true
 				}
 			}
+		}
+	}
+	return false
+}
+
+// textHelperAccess: the global (or memory it owns) is accessed by, or below, a parser helper
+// that maps a string to a string (the unescape routines).
+func textHelperAccess(c *engine.Context, g *ssa.Global, owned map[*regions.Object]bool, cell *regions.Object) bool {
+	p := c.P
+	a := regionsOf(c)
+	accesses := func(fn *ssa.Function) bool {
+		for _, b := range fn.Blocks {
+			for _, ins := range b.Instrs {
+				for _, op := range ins.Operands(nil) {
+					if *op == ssa.Value(g) {
+						return true
+					}
+				}
+			}
+		}
+		return false
+	}
+	for _, fn := range parseFuncs(c, true) {
+		sig := fn.Signature
+		if sig.Recv() == nil || sig.Params().Len() != 1 || sig.Results().Len() != 1 || !isStringT(sig.Params().At(0).Type()) || !isStringT(sig.Results().At(0).Type()) {
+			continue
+		}
+		seen := map[*ssa.Function]bool{}
+		var walk func(f *ssa.Function) bool
+		walk = func(f *ssa.Function) bool {
+			if seen[f] || !p.InPkg(f) || f.Blocks == nil {
+				return false
+			}
+			seen[f] = true
+			if accesses(f) {
+				return true
+			}
+			for _, cal := range a.Edges(f) {
+				if walk(cal) {
+					return true
+				}
+			}
+			return false
+		}
+		if walk(fn) {
+			return true
 		}
 	}
 	return false
